@@ -168,7 +168,7 @@ def run_case(case):
             nodes.append({"p": ht, "t": "l", "to": tgt})
     fv = fvol.rstrip("/")
     nodes += gen.topdir_nodes(fvol, uid, case["top"], "absent")
-    if case["top"] in ("sticky", "nonsticky", "link_sticky", "link_nonsticky"):
+    if case["top"] in ("sticky", "nonsticky", "link_sticky", "link_nonsticky", "setgid", "setuid"):
         basep = fv + ("/.real-trash" if case["top"].startswith("link") else "/.Trash")
         if case["uid_state"] == "dir":
             nodes.append({"p": basep + "/%d" % uid, "t": "d", "m": 0o700})
